@@ -601,8 +601,9 @@ def r8_request_and_terminator(ctx):
                "has none, so requiring all sampled lines would skip the adjustment for a short last chunk)", ok, u(test), key="C01-R8|multiline-sniff")
 
 
-from ..through_time import make_rule as _mk_tt
+from ..through_time import make_rule as _mk_tt, make_t2 as _mk_t2
 _through_time = _mk_tt("C01")
+_small_edits = _mk_t2("C01")
 
 def _joined_chunks(ctx):
     """chunks read lazily are put together again with np.concatenate: every chunk's tables are shifted by the cumulative size of the chunks before it"""
@@ -630,6 +631,7 @@ RULES = [
     ("C01-R5", r5_stream_termination),
     ("C01-R8", r8_request_and_terminator),
     ("C01-T1", _through_time),
+    ("C01-T2", _small_edits),
     ("C01-R9", _padded_gather_in_bounds),
     ("C01-R10", _joined_chunks),
 ]
